@@ -7,7 +7,7 @@ import ast
 from typing import List, Optional, Set
 
 from rules import fwd as R_fwd
-from sa.astutil import call_name, guards_of, parent_map, u
+from sa.astutil import call_name, guards_of, kwarg, parent_map, u
 from sa.defuse import ReachingDefs
 from sa.model import AnalysisError, FuncInfo, own_calls, own_nodes
 from sa.resolve import bind_args
@@ -32,7 +32,7 @@ def _is_unordered_source(e: ast.AST) -> Optional[str]:
     return None
 
 
-def _body_sensitive_sinks(body: List[ast.stmt], loop_vars: Set[str], rd: ReachingDefs) -> List[ast.AST]:
+def _body_sensitive_sinks(body: List[ast.stmt], loop_vars: Set[str], rd: ReachingDefs, after_loop=None) -> List[ast.AST]:
     """Order-sensitive effects inside a loop body that consumes an unordered stream."""
     out = []
     for st in body:
@@ -48,8 +48,31 @@ def _body_sensitive_sinks(body: List[ast.stmt], loop_vars: Set[str], rd: Reachin
                             d.stmt is not None and any(d.stmt is s or d.stmt in list(ast.walk(s)) for s in body)
                             for d in rd.defs_of(recv)) and rd.defs_of(recv):
                         continue
+                    if isinstance(recv, ast.Name) and n.func.attr in ("append", "extend", "add") and after_loop is not None \
+                            and _sorted_before_use(after_loop, recv.id):
+                        continue  # collected in listing order, but put in order before anything reads it
                     out.append(n)
     return out
+
+
+def _sorted_before_use(stmts: List[ast.stmt], name: str) -> bool:
+    """Is the first statement after the loop that mentions `name` an in-place sort of it (`name.sort(...)`), or does every
+    later mention wrap it in sorted() / set() / len()?"""
+    mentions = [st for st in stmts if any(isinstance(x, ast.Name) and x.id == name for x in ast.walk(st))]
+    if not mentions:
+        return False
+    first = mentions[0]
+    if isinstance(first, ast.Expr) and isinstance(first.value, ast.Call) and isinstance(first.value.func, ast.Attribute) \
+            and first.value.func.attr == "sort" and u(first.value.func.value) == name:
+        return True
+    pm = parent_map(ast.Module(body=list(stmts), type_ignores=[]))
+    for st in mentions:
+        for x in ast.walk(st):
+            if isinstance(x, ast.Name) and x.id == name and isinstance(x.ctx, ast.Load):
+                par = pm.get(x)
+                if not (isinstance(par, ast.Call) and call_name(par) in ("sorted", "set", "frozenset", "len")):
+                    return False
+    return True
 
 
 def run(ctx: Ctx):
@@ -66,11 +89,18 @@ def run(ctx: Ctx):
     gen = pkg.func(f"{MOD}::{GEN}")
     wf = pkg.func(f"{MOD}::_worker_func")
     wi = pkg.func(f"{MOD}::_worker_init")
+    # the serial application: do_work_func(<item>, *args) for every <item> of x, as a generator expression or a loop
     serial = [n for n in own_nodes(gen.node) if isinstance(n, ast.GeneratorExp)]
     oks = False
     if len(serial) == 1 and isinstance(serial[0].generators[0].target, ast.Name):
         it_ = serial[0].generators[0].target.id
         oks = u(serial[0].elt) == f"do_work_func({it_}, *args)" and u(serial[0].generators[0].iter) == "x"
+    for lp in own_nodes(gen.node):
+        if isinstance(lp, ast.For) and isinstance(lp.target, ast.Name) and u(lp.iter) == "x":
+            ys = [y for st_ in lp.body for y in ast.walk(st_) if isinstance(y, ast.Yield) and y.value is not None]
+            if len(ys) == 1 and u(ys[0].value) == f"do_work_func({lp.target.id}, *args)":
+                oks = True
+                serial = serial or [lp]
     pool = [c for c in own_calls(gen.node) if isinstance(c.func, ast.Attribute) and c.func.attr in ("imap_unordered", "imap", "map")]
     okp = len(pool) == 1 and u(pool[0].args[0]) == "_worker_func" and u(pool[0].args[1]) == "x"
     ctor = [c for c in own_calls(gen.node) if isinstance(c.func, ast.Attribute) and c.func.attr == "Pool"]
@@ -84,7 +114,8 @@ def run(ctx: Ctx):
            f"serial={oks} pool={okp} init={okc}/{oki} worker={okw}", rel, gen.line,
            sample=dict(serial=u(serial[0]) if serial else None, pooled=u(pool[0]) if pool else None))
     # the branch is chosen by num_workers only
-    tests = [u(n.test) for n in own_nodes(gen.node) if isinstance(n, ast.If)]
+    from sa.astutil import strip_not
+    tests = [u(strip_not(n.test)[0]) for n in own_nodes(gen.node) if isinstance(n, ast.If)]
     col.ob("G13", "S3", f"{rel}::{GEN}::branch-on-num-workers", tests == ["options.num_workers"],
            f"the dispatcher branches on {tests}", rel, gen.line)
 
@@ -137,13 +168,32 @@ def run(ctx: Ctx):
                     verdict, why = False, "list built in listing order"
             elif isinstance(par, ast.For) and par.iter is n:
                 lv = {x.id for x in ast.walk(par.target) if isinstance(x, ast.Name)}
-                sinks = _body_sensitive_sinks(par.body, lv, rd)
+                blk = pm.get(par)
+                after = None
+                for fld in ("body", "orelse", "finalbody"):
+                    b_ = getattr(blk, fld, None)
+                    if isinstance(b_, list) and any(x is par for x in b_):
+                        after = b_[[i for i, x in enumerate(b_) if x is par][0] + 1:]
+                sinks = _body_sensitive_sinks(par.body, lv, rd, after)
                 yields = any(isinstance(x, (ast.Yield, ast.YieldFrom)) for s in par.body for x in ast.walk(s))
                 verdict = not sinks
                 why = (f"loop body has order-sensitive effect `{u(sinks[0])[:60]}`" if sinks else
                        ("items re-yielded to the per-item dispatcher" if yields else "loop body only folds (+=) / tests"))
             elif isinstance(par, ast.YieldFrom):
                 verdict, why = True, "stream passed through (generator)"
+            elif isinstance(par, ast.Assign) and len(par.targets) == 1 and isinstance(par.targets[0], ast.Name):
+                # stored in a variable: every read of it must be an order-insensitive consumer
+                vname = par.targets[0].id
+                uses = [x for x in own_nodes(f.node) if isinstance(x, ast.Name) and x.id == vname and isinstance(x.ctx, ast.Load)
+                        and any(d.stmt is par for d in rd.defs_of(x))]
+                okuses = bool(uses)
+                for x in uses:
+                    px = pm.get(x)
+                    if isinstance(px, ast.Call) and (call_name(px) in ("sorted", "set", "len", "frozenset", "sum", "any", "all", "min", "max")
+                                                      or ("deque" in call_name(px) and kwarg(px, "maxlen") is not None)):
+                        continue
+                    okuses = False
+                verdict, why = okuses, ("stored, then only drained / folded / sorted" if okuses else "unordered listing stored in a variable")
             elif isinstance(par, ast.Assign):
                 verdict, why = False, "unordered listing stored in a variable"
             if verdict is None:
